@@ -106,7 +106,7 @@ def gen_shape(rng, n):
     """(batch, cores, cpu_count) such that main-loop rounds, leftover rounds, both, several rounds and
     short leftover rounds all occur."""
     batch = rng.choice([1, 1, 2, 2, 3, 5, 8])
-    cores = rng.choice([1, 2, 2, 3, 3, 4, 5, 8])
+    cores = rng.choice([1, 2, 2, 2, 3, 3, 3, 4, 4, 5, 8, 8, 16, 33])
     if n and rng.random() < 0.25:
         # exact multiple: only the main loop runs
         k = rng.choice([1, 2, 3])
